@@ -48,6 +48,13 @@ CHECKS = {
         "text": "All put/get_nowait sequences up to the length bound over equal-but-distinct and different (event, watch) items run on the real EventQueue and must be behaviours of the specification (FIFO, only a permitted consecutive-duplicate drop); concurrent producer/consumer histories under generated schedules must be linearizable w.r.t. the same specification; event equality must be class + five fields, with consistent hashes.",
         "note": "A drop is permitted, not required, by the statement; a queue that never coalesces is therefore not reported. Trusted: the sequential specification in props/c16.py; for the concurrent part the substitute primitives of vlib/dsched.",
     },
+    "C01": {
+        "engine": "fsops",
+        "design_ref": "DESIGN.md §3.1, §4 C01",
+        "technique": "property-based testing: model-directed operation histories (Hypothesis + bounded exhaustive) against the real inotify kernel, replay oracle at every drain point, bounded delta-debugging of failures",
+        "text": "Generated operation histories (bursts obeying the directory pacing rule by construction; recursive/non-recursive; str/bytes roots; read-buffer sizes 272..default; micro-sleeps) are executed on a scratch tree watched by the real InotifyObserver; after every burst the stream is drained behind a sentinel and the tree obtained by replaying created/deleted/moved events onto the start tree must equal os.walk+lstat of the disk in paths and kinds. All histories of length <= 2 over a small universe are enumerated (quick: a seed-dependent quarter).",
+        "note": "Real kernel, real threads: timing is sampled, not controlled. Oracle is evaluated only at drain points and never asserts absence within a time window. Trusted: vlib/fsops.py (model, executor, sentinel drain, lenient replay with strict final equality).",
+    },
 }
 
 ALL = [f"C{i:02d}" for i in range(1, 21)]
